@@ -1,6 +1,8 @@
 (* C11 — property theorems only *)
 From Coq Require Import List String NArith ZArith Bool.
 From Verif Require Import Base.Util C11.Model C11.Proofs.
+(* the store-level harness of this check (h_c12) evaluates its cases with the C12 model and checker *)
+From Verif Require C12.Model C12.Check.
 Import ListNotations.
 Local Open Scope string_scope.
 
